@@ -40,7 +40,7 @@ from . import core, rawh5, world
 
 HOLES = ("A", "B", "C")
 HIDX = {"A": 1, "B": 2, "C": 3}
-NIDX = {"x": 1, "y": 2, "z": 3}
+NIDX = {"x": 1, "y": 2, "z": 3, "t": 4}
 GKIND = {"G": "depth", "H": "interval", "K": "depth"}
 GIDX = {"G": 1, "H": 2, "K": 3}
 GTYPE = {"depth": "Depth table", "interval": "Interval table"}
@@ -54,6 +54,10 @@ OBJECT_LABELS = ("Surveys", "Trace", "TraceDepth", "Property Group IDs")
 def tags(h, name, ver, n):
     """Unique tags; a NaN gap (None in the model) at position 1 for every second (hole, name) pair, so
     that no-data handling of arrays SHARED between holes is exercised (length >= 2 only)."""
+    if name == "t":
+        # text data: the width of the entries grows with the hole and with every re-write, so a
+        # shared text array must widen whenever a later hole / update brings longer entries
+        return [f"{h.lower() * (2 * HIDX[h])}{'+' * (ver % 10)}{i}" for i in range(n)]
     out = [float(1000 * HIDX[h] + 100 * NIDX[name] + 10 * (ver % 10) + i) for i in range(n)]
     if n >= 2 and (HIDX[h] + NIDX[name]) % 2 == 1:
         out[1] = None
@@ -61,6 +65,8 @@ def tags(h, name, ver, n):
 
 
 def as_array(vals):
+    if vals and isinstance(vals[0], str):
+        return np.array(vals)
     return np.array([np.nan if v is None else v for v in vals], dtype=float)
 
 
@@ -406,6 +412,8 @@ class Exec:
                         spec["depth"] = np.array(lv, dtype=float)
                     else:
                         spec["from-to"] = np.c_[np.array(lv, dtype=float), np.array(lv, dtype=float) + 0.5].reshape((-1, 2))
+                if name == "t":
+                    spec["type"] = "text"
                 hole.add_data({name: spec}, property_group=g)
             elif k == "update":
                 _, h, name = op
@@ -795,7 +803,8 @@ def _table_blocks(tab, blocks, g, owners, holes_model, obs_name, cols):
                 role = hole["data"][col]["role"]
                 src = hole["data"][col].get("src", h)
             else:
-                exp = [None] * grp["n"]
+                # a text column has no NaN: the table's filler for a hole without that label is ""
+                exp = [("" if col == "t" else None)] * grp["n"]
                 role = "absent"
                 src = h
             if not _same_vals(exp, got):
